@@ -29,7 +29,12 @@ def faults_generic(concept, other):
         ('unknown-label/subject', 'It is prohibited that QQ is busy.', 'QQ'),
         ('two-cardinalities', 'Every %s can exactly 1 grab at most 2 a %s.' % (concept, other), 'cardinality'),
         ('missing-attribute/aggregate', 'It is prohibited that the total of phantom of a %s is greater than 2.' % concept, 'phantom'),
-    ]
+    ] + [('two-cardinalities/%s|%s' % (a, b), 'Every %s can grab %s %s or hold %s %s.' % (concept, a, other, b, other), 'cardinality') for a, b in CARD_PAIRS]
+
+
+# pairs of DIFFERENT cardinalities, including pairs that share a lower or an upper bound
+CARD_PAIRS = [('exactly 1', 'exactly 2'), ('at most 1', 'at most 2'), ('at least 1', 'between 1 and 3'), ('exactly 2', 'at least 2'),
+              ('between 1 and 2', 'between 1 and 4'), ('at least 1', 'at least 2'), ('at most 2', 'exactly 2')]
 
 
 FAULTS_SPECIAL = [
@@ -78,7 +83,8 @@ def run(tier, seed):
             k = rnd.randint(0, 3)
             lines = [rnd.choice(PAD) for _ in range(k)] + [s['text'] for s in sents[:pos]] + [fs] + [s['text'] for s in sents[pos:]]
             jobs.append((cls, '\n'.join(lines) + '\n', k + pos + 1, name, k))
-    for cls, fs, name in FAULTS_SPECIAL:
+    special = FAULTS_SPECIAL + [('two-cardinalities/%s|%s' % (a, b), 'Every worker can grab %s node or hold %s node.' % (a, b), 'cardinality') for a, b in CARD_PAIRS]
+    for cls, fs, name in special:
         for k in ((0, 1, 3) if tier == 'thorough' else (0, 2)):
             base_lines = SPECIAL_BASE.strip().split('\n')
             lines = [PAD[1]] * k + base_lines + [fs]
